@@ -44,6 +44,19 @@ CHECKS = {
         note="Bounds: 2 items (1 stateful), <=2 steps x <=2 substeps, maxiter 2, 2 consecutive runs (706k states). Identities are 48-bit digests. "
              "The tracer wraps felupe's module globals/defaults at run time (no source hooks); numerics of the linear solver are not modelled.",
         ref="5/C07"),
+    "C15": dict(
+        engine="Solver",
+        technique="Solver.tla model-checked with deeper substep bounds (SolverMC15) + replay of all its behaviours (non-converging substep at every "
+                  "position) into the real Job/Step code + trace validation; material history machines as TLA+ laws (History.tla) on every ramp "
+                  "enumerated by HistoryMC.tla",
+        text="The step/substep protocol (i-th ramp value in the i-th substep, start from the previous converged iterate, one result per converged "
+             "substep, stop at the first failure, state variables change only in a converged check and to the trial state of the converged iterate) "
+             "is checked by TLC on the model for all outcome sequences within the bounds and on every event of the replayed and real traces. "
+             "Running maximum, primary path = base material, reload retraces unload, yield condition, monotone plastic strain and path "
+             "independence of elastic bodies are decided by TLC on logged per-point history data for every ramp over 3 load levels up to the bound.",
+        note="Bounds: <=2 steps x <=3 substeps x maxiter 2 (3008 behaviours); ramps: all level sequences of length <=3 (quick) / <=4 (thorough) plus "
+             "4 longer unload/reload cycles; 8-cell mesh; resolution 2^-20. Viscoelastic models are not part of this property's history laws.",
+        ref="5/C15"),
 }
 
 NOT_YET = {}
